@@ -122,7 +122,7 @@ def classify(obs):
 
 
 def prove(chk, build, ground_sizes=(), replay=None, timeout=None, known_ok=None, canaries=8, min_obligations=1, parts=None):
-    timeout = timeout or (8 if chk.tier == "quick" else 60)
+    timeout = timeout or (12 if chk.tier == "quick" else 60)
     t0 = time.time()
     if parts:
         from .framework import parallel_map, _pool_jobs
